@@ -6,7 +6,7 @@ import dataclasses
 import typing as t
 
 from typelib import marshals, serdes, unmarshals
-from typelib.py import classes, compat, inspection
+from typelib.py import classes, compat, inspection, refs
 
 __all__ = ("Codec", "codec")
 
@@ -57,8 +57,7 @@ def codec(
     marshal = marshaller or marshals.marshaller(t=t)
     unmarshal = unmarshaller or unmarshals.unmarshaller(t=t)
     cls = codec_cls or Codec
-    # (NewType / alias / Final wrappers of a bytes type are bytes types.)
-    if inspection.isbytestype(inspection.origin(inspection.unwrap(t))):
+    if _isverbatim(t):
         cdc = cls(
             marshal=marshal,
             unmarshal=unmarshal,
@@ -73,6 +72,19 @@ def codec(
         decoder=decoder,
     )
     return cdc
+
+
+def _isverbatim(t: t.Any) -> bool:
+    """Whether values of this type travel as the bytes they are (no encoder, no decoder).
+
+    NewType / alias / Final wrappers of a bytes type are bytes types, and so is a
+    reference (`"bytes"`, a string-valued alias) which names one.
+    """
+    unwrapped = inspection.unwrap(t)
+    if isinstance(unwrapped, (str, refs.ForwardRef)):
+        ref = refs.forwardref(unwrapped) if isinstance(unwrapped, str) else unwrapped
+        unwrapped = inspection.unwrap(refs.evaluate(ref))
+    return inspection.isbytestype(inspection.origin(unwrapped))
 
 
 @classes.slotted(dict=False, weakref=False)
